@@ -526,6 +526,148 @@ func runFirstStartCS(id int, seed int64, base string, pool *storeh.Pool, replay 
 }
 
 // ---------------------------------------------------------------------
+// Lost file tail (NOT a process crash: a power loss that loses the unsynced
+// tail of a flat file while the index commits survived).  After a history the
+// last k headers (k = 1, 2, the last batch, the last two batches; once with a
+// partial header: k*80+37 bytes) are cut off the block file - and separately
+// off the filter file - WITHOUT touching the index; the image is reopened
+// with the real constructors.  Refusing to open is what the unchanged code
+// and the model do.  A store that opens is dumped (every lost hash must be
+// unknown through every lookup), gets DIFFERENT headers appended at the lost
+// heights, and is dumped again.
+
+func lostTailCases(h *History, base, dir string, pool *storeh.Pool, btoks, ftoks []int64) {
+	if len(pool.Headers) > 1000 {
+		return
+	}
+	id := h.ID
+	// sizes of the last two successful block batches of the history
+	var batches []int
+	for i := len(h.Ops) - 1; i >= 0 && len(batches) < 2; i-- {
+		if h.Ops[i].Kind == "bwrite" && len(h.Ops[i].Es) > 0 && h.Ops[i].Obs == "(ORes true)" {
+			batches = append(batches, len(h.Ops[i].Es))
+		}
+	}
+	cuts := func(n int, max int) []int {
+		var ks []int
+		cand := []int{1, 2}
+		if len(batches) > 0 {
+			cand = append(cand, batches[0])
+		}
+		if len(batches) > 1 {
+			cand = append(cand, batches[0]+batches[1])
+		}
+		seen := map[int]bool{}
+		for _, k := range cand {
+			if k >= 1 && k <= n-1 && k <= max && !seen[k] {
+				seen[k] = true
+				ks = append(ks, k)
+			}
+		}
+		return ks
+	}
+	fresh := func(i int) int64 {
+		t := int64(561 + i)
+		if t >= pool.Genesis {
+			t++ // skip the genesis header's token
+		}
+		return t
+	}
+	run := func(kind int, name string, esz int64, n int, bytes int64) {
+		d := filepath.Join(base, fmt.Sprintf("lost-%d-%d", id, len(h.SCases)))
+		os.RemoveAll(d)
+		if err := storeh.CopyDir(dir, d); err != nil {
+			panic(err)
+		}
+		defer os.RemoveAll(d)
+		p := filepath.Join(d, name)
+		fi, err := os.Stat(p)
+		if err != nil || fi.Size() != int64(n)*esz {
+			return // not the un-torn file the family is about
+		}
+		if err := os.Truncate(p, fi.Size()-bytes); err != nil {
+			panic(err)
+		}
+		m := int((fi.Size() - bytes) / esz) // whole entries left
+		sc := SCase{ID: id*1000 + 500 + len(h.SCases), Kind: kind, AH: -1, K: int(bytes), Torn: -1, Kinds: []int64{}, Post: []Op{}, Real: false}
+		e := &storeh.Env{Dir: d, Pool: pool}
+		if err := e.Open(); err == nil {
+			sc.Opened = true
+			g := &storeh.Gen{E: e, Used: map[int64]bool{}, Ever: map[int64]bool{}}
+			g.Resync()
+			var ops []Op
+			if kind == 5 {
+				lost := btoks[m:]
+				for _, t := range lost {
+					g.Ever[t] = true
+				}
+				ops = storeh.FullDump(g)
+				for _, t := range lost {
+					ops = append(ops,
+						Op{Kind: "qheightof", X: t, WF: true}, Op{Kind: "qbhash", X: t, WF: true},
+						Op{Kind: "qbanc", N: 1, X: t, WF: true}, Op{Kind: "qlocator", X: t, WF: true},
+						Op{Kind: "qfhash", X: t, WF: true}, Op{Kind: "qfanc", N: 0, X: t, WF: true})
+				}
+				// different headers at the lost heights
+				w := Op{Kind: "bwrite", WF: true}
+				for i := range lost {
+					w.Es = append(w.Es, storeh.Ent{A: fresh(i), B: int64(m + i)})
+				}
+				ops = append(ops, w, Op{Kind: "qbtip", WF: true}, Op{Kind: "qlatest", WF: true})
+				for i, t := range lost {
+					ops = append(ops,
+						Op{Kind: "qbheight", N: int64(m + i), WF: true},
+						Op{Kind: "qheightof", X: fresh(i), WF: true}, Op{Kind: "qbhash", X: fresh(i), WF: true},
+						Op{Kind: "qheightof", X: t, WF: true}, Op{Kind: "qbhash", X: t, WF: true},
+						Op{Kind: "qbanc", N: 1, X: t, WF: true}, Op{Kind: "qlocator", X: t, WF: true})
+				}
+			} else {
+				ops = storeh.FullDump(g)
+				for i := m; i < len(ftoks); i++ {
+					ops = append(ops, Op{Kind: "qfheight", N: int64(i), WF: true})
+					if i < len(btoks) {
+						ops = append(ops, Op{Kind: "qfhash", X: btoks[i], WF: true}, Op{Kind: "qfanc", N: 1, X: btoks[i], WF: true})
+					}
+				}
+				// different filter headers at the lost heights
+				w := Op{Kind: "fwrite", WF: true}
+				for i := m; i < len(ftoks) && i < len(btoks); i++ {
+					w.Es = append(w.Es, storeh.Ent{A: storeh.FilterBase + 599 - int64(i-m), B: btoks[i]})
+				}
+				ops = append(ops, w, Op{Kind: "qftip", WF: true})
+				for i := m; i < len(ftoks) && i < len(btoks); i++ {
+					ops = append(ops, Op{Kind: "qfheight", N: int64(i), WF: true}, Op{Kind: "qfhash", X: btoks[i], WF: true})
+				}
+			}
+			for i := range ops {
+				if !e.Exec(&ops[i]) {
+					break
+				}
+				sc.Post = append(sc.Post, ops[i])
+			}
+			e.Close()
+		}
+		h.SCases = append(h.SCases, sc)
+	}
+	nb, nf := len(btoks), len(ftoks)
+	for i, k := range cuts(nb, 30) {
+		run(5, blockFile, 80, nb, int64(k)*80)
+		if i == 0 && k+1 <= nb-1 {
+			run(5, blockFile, 80, nb, int64(k)*80+37)
+		}
+	}
+	for i, k := range cuts(nf, 30) {
+		if i >= 2 {
+			break
+		}
+		run(6, filterFile, 32, nf, int64(k)*32)
+		if i == 0 && k+1 <= nf-1 {
+			run(6, filterFile, 32, nf, int64(k)*32+13)
+		}
+	}
+}
+
+// ---------------------------------------------------------------------
 // Header state assertions on the final state of a history.
 
 // startupCases runs on the (closed) directory of a history's final state.
